@@ -444,6 +444,8 @@ func c01(p *model.Prog, r *report.Result) {
 	c01r10(p, r)
 	w5MetaErr(p, r, "C01.R11")
 	w5CacheKind(p, r, "C01.R12")
+	w6MsgLenOfPayload(p, r, "C01.R13")
+	w6FanoutLoops(p, r, "C01.R14")
 	c01r9(p, r)
 }
 
